@@ -254,3 +254,9 @@ func FuncValueOf(v ssa.Value) *ssa.Function {
 	}
 	return nil
 }
+
+// IsReferenceFunc reports whether f (by canonical name) exists on the reference tree.
+func IsReferenceFunc(f *ssa.Function) bool {
+	_, known := referenceFuncs[funcName(f)]
+	return known
+}
